@@ -15,7 +15,7 @@ contract(f"{B_}:MultipleUTube.u_tube_volumes",
          ensures=[("fluid-volume-per-metre", lambda E: E.result[0] == 2 * E.self.nPipes * PI * E.self.r_in * E.self.r_in),
                   ("pipe-wall-volume-per-metre", lambda E: E.result[1] == 2 * E.self.nPipes * PI * (E.self.r_out * E.self.r_out - E.self.r_in * E.self.r_in)),
                   ("pipe-resistance-of-all-legs-in-parallel", lambda E: E.result[3] == LOG(E.self.r_out / E.self.r_in) / (2 * E.self.nPipes * (2 * PI) * E.self.pipe.k)),
-                  ("convective-resistance-positive", lambda E: E.result[2] > 0)],
+                  ("convective-resistance-of-all-legs", lambda E: And(E.result[2] > 0, E.result[2] * (E.self.h_f * (2 * E.self.nPipes * PI * ((E.self.r_in * 2) * (E.self.r_in * 2)))) == 1))],
          returns=TupleOf(Real, Real, Real, Real))
 
 contract(f"{B_}:CoaxialPipe.concentric_tube_volumes",
@@ -71,13 +71,34 @@ def _equiv_check(a):
 
     with warnings.catch_warnings():
         warnings.simplefilter("ignore")
+        if a["kind"] != "single":
+            # history: an exchanger with the same tubes but another flow rate and pipe conductivity is converted first in the same interpreter; the bulk
+            # quantities of `a` must not depend on it
+            try:
+                _make_bhe(dict(a, flow=a["flow"] * 2.0 if a["flow"] < 1.0 else a["flow"] / 2.0, k_pipe=a["k_pipe"] + 0.1)).to_single()
+            except Exception:  # noqa: BLE001 - the decoy only creates history
+                pass
         bhe = _make_bhe(a)
         before = (bhe.b.r_b, bhe.grout.k, bhe.pipe.k if not isinstance(bhe.pipe.k, (list, tuple)) else tuple(bhe.pipe.k), bhe.calc_effective_borehole_resistance())
         eq = bhe.to_single()
         if a["kind"] == "single":
             return (eq is bhe), {"why": "a single U-tube does not convert to itself"}
-        vf, vp, rc, rp = bhe.u_tube_volumes() if a["kind"].startswith("double") else bhe.concentric_tube_volumes()
         rel = lambda x, y: abs(x - y) / max(abs(y), 1e-300)  # noqa: E731
+        # the bulk quantities of the original, computed here from its geometry (not with the tool's own helper: the contract is about the exchanger, not about the helper)
+        from math import log as _ln
+
+        if a["kind"].startswith("double"):
+            n_legs = 4
+            vf, vp = n_legs * pi * a["r_in"] ** 2, n_legs * pi * (a["r_out"] ** 2 - a["r_in"] ** 2)
+            rc, rp = 1.0 / (bhe.h_f * n_legs * pi * (2 * a["r_in"]) ** 2), _ln(a["r_out"] / a["r_in"]) / (n_legs * 2 * pi * a["k_pipe"])
+        else:
+            vf = pi * (a["r_ii"] ** 2 + a["r_oi"] ** 2 - a["r_io"] ** 2)
+            vp = pi * (a["r_io"] ** 2 - a["r_ii"] ** 2 + a["r_oo"] ** 2 - a["r_oi"] ** 2)
+            rc, rp = 1.0 / (bhe.h_f_a_in * 2 * pi * a["r_oi"]), _ln(a["r_oo"] / a["r_oi"]) / (2 * pi * a["k_pipe"])
+        tv = bhe.u_tube_volumes() if a["kind"].startswith("double") else bhe.concentric_tube_volumes()
+        if any(rel(x, y) > 1e-12 for x, y in zip(tv, (vf, vp, rc, rp))):
+            return False, {"why": "the bulk quantities handed to the conversion are not those of this exchanger (volumes per metre, convective and pipe resistance from its own geometry, flow and conductivity)",
+                           "tool": list(tv), "from_geometry": [vf, vp, rc, rp], "signature": "bulk-quantities"}
         if rel(2 * pi * eq.r_in ** 2, vf) > 1e-9 or rel(2 * pi * (eq.r_out ** 2 - eq.r_in ** 2), vp) > 1e-9:
             return False, {"why": "fluid / pipe-wall volume per metre not preserved", "want": [vf, vp], "got": [2 * pi * eq.r_in ** 2, 2 * pi * (eq.r_out ** 2 - eq.r_in ** 2)], "signature": "volumes"}
         if rel(eq.pipe.r_in, eq.r_in) > 0 or rel(eq.pipe.r_out, eq.r_out) > 0:
@@ -133,3 +154,145 @@ def _equiv_gen(rng):
 native(f"{B_}:GHEDesignerBoreholeWithMultiplePipes.equivalent_single_u_tube", _equiv_check, _equiv_gen, None,
        bound="real double-U (series/parallel), coaxial and single exchangers: radii/spacings that fit, r_b 55..110 mm, k_soil 1..4, k_grout 0.6..2.4, k_pipe 0.3..0.6, water / 20 % propylene glycol, 0.1..1.5 L/s, "
              "H 50..200 m: volumes (1e-9), R_fp (1e-4), original untouched, R_b* (0.1 %)")
+
+
+# ---- the conversion itself: equivalent_single_u_tube (volumes, copies, frame) and match_effective_borehole_resistance (coherent delta-circuit) ---------
+from pyvc.libmodels import SQRT  # noqa: E402
+
+RFPF = z3.Function("R_FP", z3.RealSort(), z3.RealSort(), z3.RealSort(), z3.RealSort())  # fluid-to-pipe-wall resistance of a single U-tube (r_in, r_out, pipe conductivity) for the call's fluid and flow: A-DET
+RBEFF = z3.Function("RB_EFF", z3.IntSort(), z3.RealSort(), z3.RealSort(), z3.RealSort())  # effective borehole resistance (identity, grout conductivity and R_fp the delta-circuit was built with)
+
+
+TUBEID = z3.Function("TUBE_ID", z3.RealSort(), z3.RealSort(), z3.IntSort())  # identity of the single U-tube built for these radii (within one conversion: same borehole, media, flow)
+
+
+def EqTube():
+    """the preliminary single U-tube as the conversion sees it: its own record plus ghosts naming what its delta-circuit was last computed from"""
+    return ObjOf(f"{B_}:SingleUTube", g_id=Int, m_flow_borehole=Real, R_fp=Real, k_g=Real, g_rd_kg=Real, g_rd_rfp=Real,
+                 pipe=ObjOf("ghedesigner.media:Pipe", k=Real, r_in=Real, r_out=Real, s=Real, roughness=Real, rhoCp=Real), grout=ObjOf("ghedesigner.media:Grout", k=Real, rhoCp=Real),
+                 b=ObjOf("ghedesigner.borehole:GHEBorehole", r_b=Real, H=Real, D=Real), fluid=ObjOf("fluid", cp=Real), soil=ObjOf("soil", k=Real))
+
+
+# pygfunction-facing methods of the preliminary tube (ASSUMED caller views, named after what the library does; listed in the evidence)
+contract(f"{B_}:SingleUTube.calc_fluid_pipe_resistance", dict(self=EqTube()), name=f"{B_}:SingleUTube.calc_fluid_pipe_resistance#eq",
+         ensures=[("function-of-the-pipe-conductivity", lambda E: And(E.self.R_fp == RFPF(E.self.pipe.r_in, E.self.pipe.r_out, E.self.pipe.k), E.result == E.self.R_fp))],
+         assigns=[(lambda P: (P.self, "R_fp"), Real)], returns=Real,
+         notes="ASSUMED: R_fp = R_f + R_p is a function of the exchanger and its pipe conductivity (pygfunction convection / conduction formulas: A-DET)").applies = lambda env: "g_rd_kg" in env["self"].fields
+contract(f"{B_}:SingleUTube.calc_effective_borehole_resistance", dict(self=EqTube()), name=f"{B_}:SingleUTube.calc_effective_borehole_resistance#eq",
+         ensures=[("reads-the-stored-delta-circuit", lambda E: E.result == RBEFF(E.self.g_id, E.self.g_rd_kg, E.self.g_rd_rfp))], returns=Real,
+         notes="ASSUMED (pygfunction): effective_borehole_thermal_resistance reads the delta-circuit _Rd, which only update_thermal_resistances recomputes "
+               "(from k_g and R_fp); _initialize_stored_coefficients only clears caches").applies = lambda env: "g_rd_kg" in env["self"].fields
+
+
+def coherent(t):
+    """the tube's delta-circuit is the one of its current grout conductivity and fluid-to-pipe resistance"""
+    return And(t.g_rd_kg == t.k_g, t.k_g == t.grout.k, t.g_rd_rfp == t.R_fp)
+
+# the constructor of the preliminary tube (flow.py's trusted view stores the arguments); here it additionally names the resistances pygfunction computes in it
+_ctor = REG.contracts[f"{B_}:SingleUTube.__init__"]
+_ctor.assigns = list(_ctor.assigns) + [((lambda P, k=k: (P.self, k)), sh) for k, sh in dict(g_id=Int, R_fp=Real, k_g=Real, g_rd_kg=Real, g_rd_rfp=Real, r_in=Real, r_out=Real).items()]
+_ctor.ensures = list(_ctor.ensures) + [
+    ("constructed-coherent (ASSUMED: the constructor ends with update_thermal_resistances(R_fp))",
+     lambda E: And(E.self.g_id == TUBEID(E.pipe.r_in, E.pipe.r_out), E.self.R_fp == RFPF(E.pipe.r_in, E.pipe.r_out, E.pipe.k), E.self.k_g == E.grout.k, E.self.g_rd_kg == E.grout.k, E.self.g_rd_rfp == E.self.R_fp,
+                   E.self.r_in == E.pipe.r_in, E.self.r_out == E.pipe.r_out) if E.pipe.raw().fields.get("k") is not None and E.grout.raw().fields.get("k") is not None else True)]
+
+MultiSelf = lambda: ObjOf(f"{B_}:MultipleUTube", g_id=Int, m_flow_borehole=Real, b=ObjOf("ghedesigner.borehole:GHEBorehole", r_b=Real, H=Real, D=Real),  # noqa: E731
+                          pipe=ObjOf("ghedesigner.media:Pipe", roughness=Real, rhoCp=Real, k=Real), grout=ObjOf("ghedesigner.media:Grout", k=Real, rhoCp=Real),
+                          fluid=ObjOf("fluid", cp=Real), soil=ObjOf("soil", k=Real))
+RB_ORIG = z3.Function("RB_ORIGINAL", z3.IntSort(), z3.RealSort())
+contract(f"{B_}:MultipleUTube.calc_effective_borehole_resistance", dict(self=MultiSelf()), name=f"{B_}:MultipleUTube.calc_effective_borehole_resistance#orig",
+         ensures=[("function-of-the-original-exchanger", lambda E: E.result == RB_ORIG(E.self.g_id))], returns=Real,
+         notes="ASSUMED: the original exchanger's effective resistance is a function of its (unchanged) state").applies = lambda env: "g_id" in env["self"].fields
+
+def _eq_tube_of_self():
+    t = EqTube()
+    t.fields["fluid"] = AliasOf(lambda P: P.self.fields["fluid"])  # the equivalent tube shares fluid and soil with the original
+    t.fields["soil"] = AliasOf(lambda P: P.self.fields["soil"])
+    return t
+
+
+contract(f"{B_}:GHEDesignerBoreholeWithMultiplePipes.equivalent_single_u_tube",
+         dict(self=MultiSelf(), vol_fluid=Real, vol_pipe=Real, resist_conv=Real, resist_pipe=Real),
+         requires=[("positive-bulk-quantities", lambda E: And(E.vol_fluid > 0, E.vol_pipe > 0, E.resist_conv > 0, E.resist_pipe > 0, E.self.b.r_b > 0)),
+                   ("residual-nonzero-at-the-bracket-ends (solve_root's own precondition)", lambda E: _residual_nonzero(E))],
+         ensures=[("fluid-volume-preserved", lambda E: 2 * PI * E.result.pipe.r_in * E.result.pipe.r_in == E.vol_fluid),
+                  ("pipe-wall-volume-preserved", lambda E: 2 * PI * (E.result.pipe.r_out * E.result.pipe.r_out - E.result.pipe.r_in * E.result.pipe.r_in) == E.vol_pipe),
+                  ("same-flow-fluid-soil-and-pipe-capacity", lambda E: And(E.result.m_flow_borehole == E.self.m_flow_borehole, E.result.fluid.raw() is E.self.fluid.raw(), E.result.soil.raw() is E.self.soil.raw(),
+                                                                            E.result.pipe.roughness == E.self.pipe.roughness, E.result.pipe.rhoCp == E.self.pipe.rhoCp)),
+                  ("borehole-and-grout-are-copies", lambda E: And(E.result.b.raw() is not E.self.b.raw(), E.result.grout.raw() is not E.self.grout.raw(), E.result.grout.k == E.self.grout.k,
+                                                                   E.result.b.r_b >= E.self.b.r_b, E.result.b.H == E.self.b.H)),
+                  ("fluid-pipe-resistance-is-the-one-of-the-final-pipe-conductivity", lambda E: E.result.R_fp == RFPF(E.result.pipe.r_in, E.result.pipe.r_out, E.result.pipe.k)),
+                  ("delta-circuit-still-the-constructor's", lambda E: And(E.result.g_id == TUBEID(E.result.pipe.r_in, E.result.pipe.r_out), E.result.g_rd_kg == E.self.grout.k, E.result.k_g == E.self.grout.k,
+                                                                          E.result.g_rd_rfp == RFPF(E.result.pipe.r_in, E.result.pipe.r_out, _kp(E)),
+                                                                          E.result.pipe.r_in == SQRT(E.vol_fluid / (2 * PI)), E.result.pipe.r_out == SQRT((E.vol_fluid + E.vol_pipe) / (2 * PI))))],
+         returns=_eq_tube_of_self(), options={"timeout_ms": 60000, "log_sign_facts": True})
+
+
+def _kp(E):
+    ri, ro = SQRT(E.vol_fluid / (2 * PI)), SQRT((E.vol_fluid + E.vol_pipe) / (2 * PI))
+    return LOG(ro / ri) / ((2 * PI) * 2 * E.resist_pipe)
+
+
+def _residual_nonzero(E):
+    ri, ro = SQRT(E.vol_fluid / (2 * PI)), SQRT((E.vol_fluid + E.vol_pipe) / (2 * PI))
+    kp = LOG(ro / ri) / ((2 * PI) * 2 * E.resist_pipe)
+    target = E.resist_conv + E.resist_pipe
+    return And(RFPF(ri, ro, kp / 100) - target != 0, RFPF(ri, ro, kp * 10) - target != 0)
+
+contract(f"{B_}:SingleUTube.update_thermal_resistances", dict(self=EqTube(), R_fp=Real), name=f"{B_}:SingleUTube.update_thermal_resistances#eq",
+         ensures=[("delta-circuit-recomputed-from-current-k_g-and-R_fp", lambda E: And(E.self.g_rd_kg == E.self.k_g, E.self.g_rd_rfp == E.R_fp, E.self.R_fp == E.R_fp))],
+         assigns=[(lambda P: (P.self, "g_rd_kg"), Real), (lambda P: (P.self, "g_rd_rfp"), Real), (lambda P: (P.self, "R_fp"), Real)], returns=NoneT(),
+         notes="ASSUMED (pygfunction source): update_thermal_resistances(R_fp) stores R_fp and recomputes _Rd from (pos, r_out, r_b, k_s, k_g, R_fp)").applies = lambda env: "g_rd_kg" in env["self"].fields
+
+
+def _match_requires(E):
+    t = E.preliminary_new_single_u_tube
+    lo, hi = RealVal("1/100"), RealVal(7)
+    return And(t.g_rd_kg == t.k_g, t.k_g == t.grout.k, RB_ORIG(E.self.g_id) - RBEFF(t.g_id, t.g_rd_kg, t.g_rd_rfp) != 0,
+               RB_ORIG(E.self.g_id) - RBEFF(t.g_id, RealVal("1/100"), t.R_fp) != 0, RB_ORIG(E.self.g_id) - RBEFF(t.g_id, RealVal(7), t.R_fp) != 0,
+               # had the objective refreshed the delta-circuit these would be the residuals at the bracket ends
+               RB_ORIG(E.self.g_id) - RBEFF(t.g_id, lo, t.g_rd_rfp) != 0, RB_ORIG(E.self.g_id) - RBEFF(t.g_id, hi, t.g_rd_rfp) != 0)
+
+
+contract(f"{B_}:GHEDesignerBoreholeWithMultiplePipes.match_effective_borehole_resistance", dict(self=MultiSelf(), preliminary_new_single_u_tube=EqTube()),
+         requires=[("preliminary-tube-coherent-and-residuals-nonzero", _match_requires)],
+         ensures=[("returns-the-tube-it-was-given", lambda E: E.result.raw() is E.preliminary_new_single_u_tube.raw()),
+                  ("grout-conductivity-within-its-bracket", lambda E: And(E.result.grout.k >= RealVal("1/100"), E.result.grout.k <= 7, E.result.k_g == E.result.grout.k)),
+                  ("returned-tube-is-coherent: its delta-circuit is the one of its grout conductivity", lambda E: coherent(E.result)),
+                  ("only-the-grout-conductivity-of-the-tube-changes", lambda E: And(E.result.pipe.k == E.old.preliminary_new_single_u_tube.pipe.k, E.result.R_fp == E.old.preliminary_new_single_u_tube.R_fp,
+                                                                                   E.result.b.r_b == E.old.preliminary_new_single_u_tube.b.r_b))],
+         assigns=[(lambda P: (P.preliminary_new_single_u_tube, "k_g"), Real), (lambda P: (P.preliminary_new_single_u_tube.fields["grout"], "k"), Real),
+                  (lambda P: (P.preliminary_new_single_u_tube, "g_rd_kg"), Real), (lambda P: (P.preliminary_new_single_u_tube, "g_rd_rfp"), Real)],
+         returns=AliasOf(lambda P: P.preliminary_new_single_u_tube), options={"timeout_ms": 60000})
+
+# the composition for a double U-tube: the tube handed to the short-time model has the original's volumes and a coherent delta-circuit
+contract(f"{B_}:MultipleUTube.to_single",
+         dict(self=ObjOf(f"{B_}:MultipleUTube", g_id=Int, nPipes=Int, r_in=Real, r_out=Real, h_f=Real, m_flow_borehole=Real, b=ObjOf("ghedesigner.borehole:GHEBorehole", r_b=Real, H=Real, D=Real),
+                         pipe=ObjOf("ghedesigner.media:Pipe", roughness=Real, rhoCp=Real, k=Real), grout=ObjOf("ghedesigner.media:Grout", k=Real, rhoCp=Real),
+                         fluid=ObjOf("fluid", cp=Real), soil=ObjOf("soil", k=Real))),
+         requires=[("physical", lambda E: And(E.self.nPipes >= 1, E.self.r_in > 0, E.self.r_out > E.self.r_in, E.self.h_f > 0, E.self.pipe.k > 0, E.self.b.r_b > 0)),
+                   ("A-LOG instance: ln(r_out/r_in) > 0 for r_out > r_in", lambda E: LOG(E.self.r_out / E.self.r_in) > 0),
+                   ("residuals-nonzero-at-the-bracket-ends (solve_root's precondition, both solves)", lambda E: _to_single_residuals(E))],
+         ensures=[("fluid-volume-per-metre-preserved", lambda E: 2 * PI * E.result.pipe.r_in * E.result.pipe.r_in == 2 * E.self.nPipes * PI * E.self.r_in * E.self.r_in),
+                  ("pipe-wall-volume-per-metre-preserved", lambda E: 2 * PI * (E.result.pipe.r_out * E.result.pipe.r_out - E.result.pipe.r_in * E.result.pipe.r_in)
+                   == 2 * E.self.nPipes * PI * (E.self.r_out * E.self.r_out - E.self.r_in * E.self.r_in)),
+                  ("equivalent-tube-coherent", lambda E: coherent(E.result))],
+         returns=EqTube(), options={"timeout_ms": 60000})
+
+
+def _to_single_residuals(E):
+    n = 2 * E.self.nPipes
+    vf = n * PI * E.self.r_in * E.self.r_in
+    vp = n * PI * (E.self.r_out * E.self.r_out - E.self.r_in * E.self.r_in)
+    ri, ro = SQRT(vf / (2 * PI)), SQRT((vf + vp) / (2 * PI))
+    rpipe = LOG(E.self.r_out / E.self.r_in) / (n * (2 * PI) * E.self.pipe.k)
+    kp = LOG(ro / ri) / ((2 * PI) * 2 * rpipe)
+    tid, rfp0 = TUBEID(ri, ro), RFPF(ri, ro, kp)
+    # (the convective resistance enters the target of the first solve; its residuals are nonzero for every positive convective resistance)
+    return And(ForAll([z3.Real("rc!")], Implies(z3.Real("rc!") > 0, And(RFPF(ri, ro, kp / 100) - (z3.Real("rc!") + rpipe) != 0, RFPF(ri, ro, kp * 10) - (z3.Real("rc!") + rpipe) != 0))),
+               RB_ORIG(E.self.g_id) - RBEFF(tid, E.self.grout.k, rfp0) != 0,
+               # residuals of the grout solve at its bracket ends for whatever R_fp the first solve ends with
+               ForAll([z3.Real("rfp!")], And(RB_ORIG(E.self.g_id) - RBEFF(tid, RealVal("1/100"), z3.Real("rfp!")) != 0, RB_ORIG(E.self.g_id) - RBEFF(tid, RealVal(7), z3.Real("rfp!")) != 0)))
+
+
+EQUIV_FUNCS = [f"{B_}:GHEDesignerBoreholeWithMultiplePipes.equivalent_single_u_tube", f"{B_}:GHEDesignerBoreholeWithMultiplePipes.match_effective_borehole_resistance", f"{B_}:MultipleUTube.to_single"]
